@@ -326,9 +326,6 @@ Fixpoint ref_all_errors (rs : list (vresult Z)) : list Z :=
   | VOk :: t => ref_all_errors t
   | VErr es :: t => es ++ ref_all_errors t
   end.
-(* known finding C17-combine-empty-err: some part failed but no part carries an error *)
-Definition combine_known (rs : list (vresult Z)) : bool :=
-  negb (forallb is_ok rs) && match ref_all_errors rs with [] => true | _ => false end.
 (* the property: Ok iff every part is Ok, else Err (all errors in order) *)
 Definition prop_combine (rs : list (vresult Z)) (o : vresult Z) : bool :=
   if forallb is_ok rs then is_ok o else result_eqb o (VErr (ref_all_errors rs)).
@@ -387,7 +384,7 @@ Definition check_C17 (kind : string) (input output : J) : verdict :=
     | JL jrs =>
         match omap dec_result jrs, dec_result output with
         | Some rs, Some o =>
-            V (result_eqb o (combine_validations rs)) (prop_combine rs o) (combine_known rs) false
+            ok_verdict (result_eqb o (combine_validations rs)) (prop_combine rs o)
         | _, _ => malformed
         end
     | _ => malformed
